@@ -15,6 +15,24 @@ Theorem c01_syndrome_ftp : forall stabs errs ms t, length errs = length ms -> t 
   xorv (xorv (nth ((t + length ms - 1) mod length ms) ms []) (syndrome_of stabs (nth t errs []))) (nth t ms []).
 Proof. exact syndrome_ftp_nth. Qed.
 
+(* flip locality: toggling the flips of step t0 changes the m[t-1] term of row (t0+1) mod T and the m[t] term of
+   row t0; all other rows are untouched; with one time step the two coincide and cancel *)
+Theorem c01_flip_locality : forall stabs errs ms t0 d t,
+  length errs = length ms -> t0 < length ms -> t < length ms ->
+  nth t (decoder_syndrome stabs errs (upd_nth t0 (fun m => xorv m d) ms)) [] =
+  xorv (xorv (flip_if ((t + length ms - 1) mod length ms =? t0) d (nth ((t + length ms - 1) mod length ms) ms []))
+             (syndrome_of stabs (nth t errs [])))
+       (flip_if (t =? t0) d (nth t ms [])).
+Proof. exact flip_locality. Qed.
+Theorem c01_flip_untouched : forall stabs errs ms t0 d t,
+  length errs = length ms -> t0 < length ms -> t < length ms ->
+  t <> t0 -> (t + length ms - 1) mod length ms <> t0 ->
+  nth t (decoder_syndrome stabs errs (upd_nth t0 (fun m => xorv m d) ms)) [] = nth t (decoder_syndrome stabs errs ms) [].
+Proof. exact flip_untouched. Qed.
+Theorem c01_flip_single_step : forall stabs e m d, length m = length d -> length (syndrome_of stabs e) = length d ->
+  decoder_syndrome stabs [e] [xorv m d] = decoder_syndrome stabs [e] [m].
+Proof. exact flip_single_step. Qed.
+
 (* each flip enters exactly two rows: the XOR of all rows is the syndrome of the total error *)
 Theorem c01_ftp_parity : forall stabs n2 errs ms,
   rowlen n2 errs -> rowlen (length stabs) ms -> length errs = length ms ->
@@ -75,6 +93,6 @@ Example c01_ex :
   option_map d_weight (snd (run_once_model five errs ms true (Bare (Some (to_bsf [pI;pI;pI;pI;pI]))))) = Some 2.
 Proof. vm_compute. auto. Qed.
 
-Print Assumptions c01_syndrome_ideal. Print Assumptions c01_syndrome_ftp. Print Assumptions c01_ftp_parity.
+Print Assumptions c01_syndrome_ideal. Print Assumptions c01_syndrome_ftp. Print Assumptions c01_ftp_parity. Print Assumptions c01_flip_locality. Print Assumptions c01_flip_untouched. Print Assumptions c01_flip_single_step.
 Print Assumptions c01_verdict. Print Assumptions c01_verdict_pauli. Print Assumptions c01_bare_recovery. Print Assumptions c01_passthrough.
 Print Assumptions c01_error_iff. Print Assumptions c01_weight. Print Assumptions c01_reject.
